@@ -17,7 +17,7 @@ func init() {
 		ID: "C05",
 		Rule: "differential monitor: the seven *Along forms over every shape of rank 1..R (sizes 1..3) x every dim, and the seven whole-tensor forms over every shape of rank 0..R plus large tensors (up to 8192 elements, several rank/size layouts), with position-identifying data in three value classes (unique reals, distinct integers compared exactly, magnitudes up to 1e6); every output element and the output shape are compared with the reference statistic of the corresponding fibre (two-pass unbiased variance, 0 for a single element, Std = sqrt(Var), Avg = Mean). " +
 			"Non-trivial: the operand has >= 2 elements; distinct = (reducer, shape, dim, value class).",
-		Assumptions: []string{"sums compared within 1e-11 x sum|x| (order of summation is free), extrema exactly, variance/std within 1e-10 relative (+1e-10 x max|x|^2)"},
+		Assumptions: []string{"sums compared within 1e-11 x sum|x| (order of summation is free), extrema exactly, variance/std within the conditioning bound of the two-pass formula: 8 n eps max|x| maxdev + 1e-9 maxdev^2 (so data with a large common offset still decide it)"},
 		FloorQuick:  20000, FloorThor: 80000,
 		Run: runC05,
 	})
@@ -26,11 +26,18 @@ func init() {
 var c05Along = []string{"sumalong", "maxalong", "minalong", "avgalong", "varalong", "stdalong", "meanalong"}
 
 func c05Data(k *fw.K, class int, shape []int) (*ref.T, string) {
-	switch class {
+	switch class % 4 {
 	case 0:
 		return Shuffled(k.Rng, Unique(k.Rng, shape, 0.1, 5)), "unique"
 	case 1:
 		return UniqueInts(k.Rng, shape), "integers"
+	case 3: // a large common offset relative to the spread (where one-pass variance formulas cancel catastrophically)
+		t := Shuffled(k.Rng, Unique(k.Rng, shape, 0.5, 4))
+		off := []float64{1e6, -3e8, 1e9, 1e7}[k.Rng.Intn(4)]
+		for i := range t.Data {
+			t.Data[i] += off
+		}
+		return t, "offset"
 	}
 	t := Shuffled(k.Rng, Unique(k.Rng, shape, 1, 2))
 	for i := range t.Data {
@@ -40,10 +47,14 @@ func c05Data(k *fw.K, class int, shape []int) (*ref.T, string) {
 }
 
 // compareStat compares one reduced value with tolerance scaled to the fibre.
+func statOf2(xs []float64) float64 { return ref.New([]int{len(xs)}, xs).Reduce(ref.SVar) }
+
 func statTol(kind ref.Stat, fibre []float64) float64 {
 	s := 0.
+	s0 := 0.
 	m := 0.
 	for _, x := range fibre {
+		s0 += x
 		s += math.Abs(x)
 		if math.Abs(x) > m {
 			m = math.Abs(x)
@@ -56,10 +67,24 @@ func statTol(kind ref.Stat, fibre []float64) float64 {
 		return 1e-11 * s
 	case ref.SAvg, ref.SMean:
 		return 1e-11 * s / float64(len(fibre))
-	case ref.SVar:
-		return 1e-10 * m * m
-	case ref.SStd:
-		return 1e-10 * m
+	case ref.SVar, ref.SStd:
+		// conditioning of the two-pass formula: the mean carries an error of about n*eps*max|x|, so every deviation
+		// does, and the variance about 2*dev*that; plus 1e-9 relative to the spread itself
+		n := float64(len(fibre))
+		mu := s0 / n
+		dev := 0.
+		for _, x := range fibre {
+			dev = math.Max(dev, math.Abs(x-mu))
+		}
+		vt := 8*n*1.2e-16*m*dev + 1e-9*dev*dev + 1e-300
+		if kind == ref.SVar {
+			return vt
+		}
+		sd := math.Sqrt(statOf2(fibre))
+		if sd > 0 {
+			return vt/sd + 1e-12*sd
+		}
+		return math.Sqrt(vt)
 	}
 	return 0
 }
@@ -70,7 +95,7 @@ func runC05(c *fw.Ctx) {
 	for _, shape := range Shapes(1, R, 3) {
 		for dim := range shape {
 			for oi, op := range c05Along {
-				for class := 0; class < 3; class++ {
+				for class := 0; class < 4; class++ {
 					shape, dim, op, oi, class := shape, dim, op, oi, class
 					c.Case(func(k *fw.K) {
 						x, cname := c05Data(k, class, shape)
@@ -108,12 +133,22 @@ func runC05(c *fw.Ctx) {
 				dim = k.Rng.Intn(len(shape))
 			}
 			oi := k.Rng.Intn(len(c05Along))
-			x, cname := c05Data(k, k.Rng.Intn(3), shape)
+			x, cname := c05Data(k, k.Rng.Intn(4), shape)
 			in := ref.Instr{Op: c05Along[oi], Dim: dim}
 			k.Case = map[string]any{"op": in.Op, "dim": dim, "shape": shape, "class": cname}
 			k.Key("%s/%s/%d/%s", in.Op, shapeKey(shape), dim, cname)
 			k.Count("along_cases_long_dimension", 1)
 			c05Along1(k, in, ref.Stat(oi), x)
+		})
+	}
+	// ---- reducers on tensors with a history (built by Full/Zeros/Ones and earlier operations of a chain) ----
+	for i := 0; i < c.Pick(3000, 40000); i++ {
+		c.Case(func(k *fw.K) {
+			p := genChain(k.Rng, 2+k.Rng.Intn(5))
+			k.Case = c01case{Family: "forward chain: reducers on every node", Prog: p}
+			k.Key("%s", chainKey(p))
+			k.Count("chain_cases", 1)
+			runChain(k, p)
 		})
 	}
 	// ---- whole-tensor forms ----
@@ -127,7 +162,7 @@ func runC05(c *fw.Ctx) {
 		whole = append(whole, []int{n}, []int{2, n}, []int{n, 3})
 	}
 	for _, shape := range whole {
-		for class := 0; class < 3; class++ {
+		for class := 0; class < 4; class++ {
 			shape, class := shape, class
 			c.Case(func(k *fw.K) {
 				x, cname := c05Data(k, class, shape)
